@@ -13,7 +13,7 @@ import (
 // Main is the entry point of `vh bus <mode> ...`.
 //
 //	vh bus seq  -scripts f.ndjson -out trace.ndjson [-timeout-ms 3000]
-//	vh bus conc -seed S -runs R [-from K] -out trace.ndjson [-timeout-ms 3000] [-size small|big]
+//	vh bus conc -seed S -runs R [-from K] -out trace.ndjson [-timeout-ms 3000] [-size small|big|lag]
 //
 // Exit code 0: all runs completed; 3: a run had an operation that did not complete within the timeout (the
 // trace up to and including that run is written; later runs are not executed); 2: harness error.
@@ -28,7 +28,7 @@ func Main(args []string) int {
 	timeoutMs := fs.Int("timeout-ms", 3000, "per-operation timeout")
 	seed := fs.Int64("seed", 1, "seed (conc)")
 	runs := fs.Int("runs", 10, "number of runs (conc)")
-	size := fs.String("size", "small", "small|big (conc)")
+	size := fs.String("size", "small", "small|big|lag (conc)")
 	from := fs.Int("from", 1, "first run number (conc): run k of a seed is the same execution plan whatever -from/-runs")
 	if err := fs.Parse(args[1:]); err != nil {
 		return 2
